@@ -337,4 +337,232 @@ Section WithArticles.
     apply Forall_forall. intros x Hx. now apply split_on_no_sep in Hx.
   Qed.
 
+
+  (* -------------------------------------------------------------------------- *)
+  (** * The article rule on segments *)
+
+  Definition articles_ok : bool :=
+    forallb (fun a => negb (is_empty a) && negb (memN SP a)) a1.
+  Hypothesis Hart : articles_ok = true.
+
+  Notation last_word := Wrap.last_word.
+  Notation first_word := Wrap.first_word.
+  Notation seg_ok := (Wrap.seg_ok a1).
+
+  Lemma memN_In x l : memN x l = true <-> In x l.
+  Proof.
+    induction l as [|y r IH]; cbn; [split; [discriminate|tauto]|].
+    rewrite orb_true_iff, IH, N.eqb_eq. split; intros [H|H]; auto.
+  Qed.
+
+  Lemma mem_text_In x l : mem_text x l = true -> exists y, In y l /\ text_eqb x y = true.
+  Proof.
+    induction l as [|y r IH]; cbn; [discriminate|]. intros H.
+    apply orb_prop in H. destruct H as [H|H].
+    - exists y. auto.
+    - destruct (IH H) as [z [Hz1 Hz2]]. exists z. auto.
+  Qed.
+
+  Lemma text_eqb_eq a b : text_eqb a b = true -> a = b.
+  Proof.
+    revert b. induction a as [|x a IH]; intros [|y b] H; cbn in H; try discriminate; [reflexivity|].
+    apply andb_prop in H. destruct H as [H1 H2]. apply N.eqb_eq in H1. subst. f_equal. auto.
+  Qed.
+
+  Lemma article_props a : is_article1 a1 a = true -> a <> [] /\ ~ In SP a.
+  Proof.
+    unfold is_article1. intros H. apply mem_text_In in H. destruct H as [y [Hy1 Hy2]].
+    apply text_eqb_eq in Hy2. subst y.
+    unfold articles_ok in Hart. rewrite forallb_forall in Hart. specialize (Hart a Hy1).
+    apply andb_prop in Hart. destruct Hart as [H1 H2]. split.
+    - intros ->. discriminate.
+    - intros Hin. apply memN_In in Hin. rewrite Hin in H2. discriminate.
+  Qed.
+
+  Definition nonart (x : text) : Prop := is_article1 a1 (last_word x) = false.
+  Definition ends_sp (x : text) : Prop := x = [] \/ exists a, x = (a ++ [SP])%list.
+
+  Lemma nonart_nil : nonart [].
+  Proof.
+    unfold nonart. cbn. destruct (is_article1 a1 []) eqn:E; [|reflexivity].
+    apply article_props in E. destruct E as [E _]. contradiction.
+  Qed.
+
+  Lemma seg_ok_nil s : seg_ok s [] = true.
+  Proof. unfold Wrap.seg_ok. cbn. now rewrite orb_true_r. Qed.
+
+  Lemma seg_ok_nonart s rest : nonart s -> seg_ok s rest = true.
+  Proof. unfold Wrap.seg_ok, nonart. intros ->. reflexivity. Qed.
+
+  Lemma take_word_app_nosp a b : ~ In SP a -> take_word (a ++ SP :: b) = a.
+  Proof.
+    induction a as [|x a IH]; intros Hn.
+    - cbn. reflexivity.
+    - cbn. destruct (N.eqb_spec x SP) as [->|Hne].
+      + exfalso. apply Hn. now left.
+      + f_equal. apply IH. intros Hc. apply Hn. now right.
+  Qed.
+
+  Lemma take_word_nosp a : ~ In SP a -> take_word a = a.
+  Proof.
+    induction a as [|x a IH]; intros Hn; [reflexivity|].
+    cbn. destruct (N.eqb_spec x SP) as [->|Hne].
+    - exfalso. apply Hn. now left.
+    - f_equal. apply IH. intros Hc. apply Hn. now right.
+  Qed.
+
+  Lemma drop_blanks_nonblank a :
+    (exists x r, a = x :: r /\ x <> SP) -> drop_blanks a = a.
+  Proof.
+    intros [x [r [-> Hx]]]. cbn. destruct (N.eqb_spec x SP); [contradiction|reflexivity].
+  Qed.
+
+  Lemma nosp_head a : a <> [] -> ~ In SP a -> exists x r, a = x :: r /\ x <> SP.
+  Proof.
+    destruct a as [|x r]; [contradiction|]. intros _ Hn. exists x, r. split; [reflexivity|].
+    intros ->. apply Hn. now left.
+  Qed.
+
+  Lemma last_word_word y wd :
+    ends_sp y -> wd <> [] -> ~ In SP wd -> last_word (y ++ wd ++ [SP]) = wd.
+  Proof.
+    intros Hy Hne Hns. unfold Wrap.last_word.
+    rewrite !rev_app_distr. cbn [rev app].
+    assert (Hrw : ~ In SP (rev wd)) by (intros Hc; apply Hns; now apply in_rev).
+    assert (Hrne : rev wd <> []).
+    { intros E. apply (f_equal (@rev N)) in E. rewrite rev_involutive in E. now cbn in E. }
+    change (drop_blanks (SP :: rev wd ++ rev y)) with (drop_blanks (rev wd ++ rev y)).
+    rewrite drop_blanks_nonblank.
+    2:{ destruct (nosp_head _ Hrne Hrw) as [x [r [E Hx]]]. rewrite E. exists x, (r ++ rev y)%list.
+        split; [reflexivity|exact Hx]. }
+    destruct Hy as [->|[a ->]].
+    - cbn [rev app]. rewrite app_nil_r. rewrite take_word_nosp by exact Hrw.
+      apply rev_involutive.
+    - rewrite rev_app_distr. cbn [rev app].
+      rewrite take_word_app_nosp by exact Hrw. apply rev_involutive.
+  Qed.
+
+  Lemma last_word_sp acc : last_word (acc ++ [SP]) = last_word acc.
+  Proof. unfold Wrap.last_word. rewrite rev_app_distr. reflexivity. Qed.
+
+  Lemma first_word_sp m : first_word (SP :: m) = first_word m.
+  Proof. reflexivity. Qed.
+
+  Lemma first_word_art a m :
+    a <> [] -> ~ In SP a -> (m = [] \/ exists m', m = SP :: m') -> first_word (a ++ m) = a.
+  Proof.
+    intros Hne Hns Hm. unfold Wrap.first_word.
+    rewrite drop_blanks_nonblank.
+    2:{ destruct (nosp_head _ Hne Hns) as [x [r [E Hx]]]. rewrite E. exists x, (r ++ m)%list.
+        split; [reflexivity|exact Hx]. }
+    destruct Hm as [->|[m' ->]].
+    - rewrite app_nil_r. now apply take_word_nosp.
+    - now apply take_word_app_nosp.
+  Qed.
+
+  (** One step of the accumulation: appending token [t] keeps "the accumulated
+      segment may be cut here". *)
+  Definition step (t : text) (r : list text) : Prop :=
+    r = [] \/
+    forall acc, ends_sp acc -> seg_ok acc (t ++ concat r) = true ->
+                seg_ok (acc ++ t) (concat r) = true /\ ends_sp (acc ++ t).
+
+  Fixpoint all_steps (T : list text) : Prop :=
+    match T with
+    | [] => True
+    | t :: r => step t r /\ all_steps r
+    end.
+
+  Lemma concat_add_spaces_cons y rest :
+    exists m, concat (add_spaces (y :: rest)) = (y ++ m)%list
+              /\ (m = [] \/ exists m', m = SP :: m').
+  Proof.
+    destruct rest as [|z rest'].
+    - exists []. cbn. split; [reflexivity|now left].
+    - exists (SP :: concat (add_spaces (z :: rest'))).
+      change (add_spaces (y :: z :: rest')) with ((y ++ [SP])%list :: add_spaces (z :: rest')).
+      cbn [concat]. split; [now rewrite <- app_assoc|right; eauto].
+  Qed.
+
+  Lemma add_spaces_steps toks : chain toks -> all_steps (add_spaces toks).
+  Proof.
+    induction toks as [|x rest IH]; intros Hc; [exact I|].
+    destruct rest as [|y rest'].
+    - cbn. split; [now left|exact I].
+    - destruct Hc as [Hxy Hc].
+      change (add_spaces (x :: y :: rest')) with ((x ++ [SP])%list :: add_spaces (y :: rest')).
+      split; [|now apply IH].
+      right. intros acc Hacc Hok.
+      split; [|right; exists (acc ++ x)%list; now rewrite <- app_assoc].
+      destruct Hxy as [[->|[pre [wd [-> [Hne [Hns [Hna Hpre]]]]]]]|[a [rest0 [-> [Ha Hr0]]]]].
+      + (* empty token: a blank *)
+        cbn [app] in *. unfold Wrap.seg_ok in *. rewrite last_word_sp.
+        rewrite first_word_sp in Hok. exact Hok.
+      + (* ends with a non-article word *)
+        apply seg_ok_nonart. unfold nonart.
+        replace (acc ++ (pre ++ wd) ++ [SP])%list with ((acc ++ pre) ++ wd ++ [SP])%list
+          by (now rewrite <- !app_assoc).
+        rewrite last_word_word; [exact Hna| |exact Hne|exact Hns].
+        destruct Hpre as [->|[pre' ->]].
+        * now rewrite app_nil_r.
+        * right. exists (acc ++ pre')%list. now rewrite <- app_assoc.
+      + (* the next token starts with an article *)
+        destruct (concat_add_spaces_cons (a ++ rest0)%list rest') as [m [Em Hm]].
+        rewrite Em. unfold Wrap.seg_ok.
+        destruct (article_props a Ha) as [Hane Hans].
+        rewrite <- app_assoc. rewrite first_word_art; [rewrite Ha; now rewrite !orb_true_r|exact Hane|exact Hans|].
+        destruct Hr0 as [->|[r' ->]].
+        * exact Hm.
+        * right. now exists (r' ++ m)%list.
+  Qed.
+
+  Lemma article_rule_cons s r :
+    article_rule a1 (s :: r) = seg_ok s (concat r) && article_rule a1 r.
+  Proof. reflexivity. Qed.
+
+  Lemma segments_loop_article w T acc_len acc :
+    acc_len = zlen acc -> (ends_sp acc \/ T = []) -> all_steps T ->
+    seg_ok acc (concat T) = true ->
+    article_rule a1 (segments_loop w T acc_len acc) = true.
+  Proof.
+    revert acc_len acc. induction T as [|t r IH]; intros acc_len acc Hlen Hacc Hall Hok.
+    - cbn [segments_loop]. destruct (0 <? acc_len); [|reflexivity].
+      rewrite article_rule_cons. cbn [concat]. now rewrite seg_ok_nil.
+    - destruct Hall as [Hstep Hall]. destruct Hacc as [Hacc|Hacc]; [|discriminate].
+      assert (Hnil_sp : ends_sp []) by now left.
+      assert (Hnil_ok : forall rest, seg_ok [] rest = true).
+      { intros rest. apply seg_ok_nonart. apply nonart_nil. }
+      (* facts about the token alone and appended to acc *)
+      assert (Ht : seg_ok t (concat r) = true /\ (ends_sp t \/ r = [])).
+      { destruct Hstep as [->|Hstep]; [split; [apply seg_ok_nil|now right]|].
+        destruct (Hstep [] Hnil_sp (Hnil_ok _)) as [H1 H2]. cbn [app] in *. auto. }
+      assert (Hat : seg_ok (acc ++ t) (concat r) = true /\ (ends_sp (acc ++ t) \/ r = [])).
+      { destruct Hstep as [->|Hstep]; [split; [apply seg_ok_nil|now right]|].
+        destruct (Hstep acc Hacc Hok) as [H1 H2]. auto. }
+      cbn [segments_loop]. destruct (w <? zlen t).
+      + rewrite !article_rule_cons. cbn [concat].
+        rewrite (segments_loop_concat w r 0 []) by reflexivity. cbn [app].
+        cbn [concat] in Hok. rewrite Hok. destruct Ht as [Ht1 Ht2]. rewrite Ht1. cbn [andb].
+        apply IH; [reflexivity|now left|exact Hall|apply Hnil_ok].
+      + destruct (w <? acc_len + zlen t).
+        * rewrite article_rule_cons.
+          rewrite (segments_loop_concat w r (zlen t) t) by reflexivity.
+          cbn [concat] in Hok. rewrite Hok. cbn [andb].
+          destruct Ht as [Ht1 Ht2]. apply IH; [reflexivity|exact Ht2|exact Hall|exact Ht1].
+        * destruct Hat as [Hat1 Hat2].
+          apply IH; [rewrite zlen_app; lia|exact Hat2|exact Hall|exact Hat1].
+  Qed.
+
+  Theorem wrap_article w t : article_rule a1 (wrap a1 a2 w t) = true.
+  Proof.
+    unfold wrap. destruct (split_on SP t) as [|p [|p2 ps]] eqn:E.
+    - exfalso. now apply (split_on_nonempty SP t).
+    - cbn. now rewrite seg_ok_nil.
+    - apply segments_loop_article.
+      + reflexivity.
+      + left. now left.
+      + unfold tokens_of. apply add_spaces_steps. rewrite E.
+        rewrite <- E. apply tokens_articles_kept.
+      + apply seg_ok_nonart. apply nonart_nil.
+  Qed.
 End WithArticles.
